@@ -1,7 +1,7 @@
 (* C08 -- property theorems only.  Each is closed by [exact] of a lemma from Proofs*.v. *)
 From Coq Require Import List Arith Bool Lia ZArith QArith Qcanon Permutation Sorting.Sorted.
 Import ListNotations.
-Require Import NV.C08.Model NV.C08.ProofsLM NV.C08.ProofsRG NV.C08.ProofsVol NV.C08.ProofsPS NV.C08.ProofsHC.
+Require Import NV.C08.Model NV.C08.ProofsLM NV.C08.ProofsRG NV.C08.ProofsVol NV.C08.ProofsPS NV.C08.ProofsHC NV.C08.ProofsSph.
 Open Scope nat_scope.
 
 (* ---- LMSpace: for all lmax >= mmax ------------------------------------------------------------- *)
@@ -164,6 +164,42 @@ Proof. exact mrun_transparent. Qed.
 Theorem C08_sphere_volumes_partial : forall pi nside, 1 <= nside ->
   hp_total pi nside = (qn 4 * pi)%Qc.
 Proof. exact hp_total_4pi. Qed.
+
+(* ---- sphere pair: LMSpace / GLSpace constructors and default codomains (round 6) ------------------ *)
+(* for all mmax <= lmax: the constructor accepts, the default codomain is GLSpace(lmax+1, 2*mmax+1),
+   which is accepted, and ITS default codomain is the LMSpace we started from (involution on the LM side) *)
+Theorem C08_sphere_lm_codomain_roundtrip : forall lmax mmax, mmax <= lmax ->
+  lm_make lmax (Some mmax) = Some (lmax, mmax) /\
+  lm_codomain (lmax, mmax) = Some (lmax + 1, mmax * 2 + 1) /\
+  gl_codomain (lmax + 1, mmax * 2 + 1) = Some (lmax, mmax).
+Proof. exact sph_lm_roundtrip. Qed.
+
+(* for all nlat, nlon >= 1: GLSpace accepts, get_default_codomain never raises (mmax = nlon//2 <= lmax),
+   the LMSpace resolves at least nlat-1, and its own codomain is accepted and has at least nlat rings *)
+Theorem C08_sphere_gl_codomain_valid : forall nlat nlon, 1 <= nlat -> 1 <= nlon ->
+  gl_make nlat (Some nlon) = Some (nlat, nlon) /\
+  exists l m, gl_codomain (nlat, nlon) = Some (l, m) /\ m <= l /\ m = nlon / 2 /\ nlat - 1 <= l /\
+    lm_codomain (l, m) = Some (l + 1, m * 2 + 1) /\ nlat <= l + 1.
+Proof. exact sph_gl_codomain_valid. Qed.
+
+(* defaults: LMSpace(lmax) = LMSpace(lmax, lmax) with (lmax+1)^2 coefficients; GLSpace(nlat) has
+   nlon = 2*nlat-1, its codomain is LMSpace(nlat-1, nlat-1), whose codomain is the same GLSpace again *)
+Theorem C08_sphere_defaults : forall n,
+  (lm_make n None = Some (n, n) /\ lm_size n n = (n + 1) * (n + 1)) /\
+  (1 <= n -> gl_make n None = Some (n, 2 * n - 1) /\
+             gl_codomain (n, 2 * n - 1) = Some (n - 1, n - 1) /\
+             lm_codomain (n - 1, n - 1) = Some (n, 2 * n - 1)).
+Proof. intros n. split; [exact (sph_lm_default n)|exact (sph_gl_default n)]. Qed.
+
+(* the ValueError branches: mmax > lmax, nlat < 1, nlon < 1 *)
+Theorem C08_sphere_rejections : forall lmax mmax nlon, lmax < mmax ->
+  lm_make lmax (Some mmax) = None /\ gl_make 0 nlon = None /\ gl_make (S lmax) (Some 0) = None.
+Proof. exact sph_rejects. Qed.
+
+(* the Gauss-Legendre partner has at least as many pixels as the LMSpace has coefficients *)
+Theorem C08_sphere_gl_enough_pixels : forall lmax mmax, mmax <= lmax ->
+  lm_size lmax mmax <= gl_size (lmax + 1, mmax * 2 + 1).
+Proof. exact sph_gl_enough. Qed.
 
 (* Non-vacuity *)
 Example C08_hyps_satisfiable :
